@@ -51,7 +51,7 @@ def main():
     out = os.path.join(VERIF, "seeded", sid)
     os.makedirs(out, exist_ok=True)
     for f in ("patch.diff", "demo.py", "notes.md"):
-        if os.path.exists(os.path.join(src, f)):
+        if os.path.exists(os.path.join(src, f)) and os.path.abspath(src) != os.path.abspath(out):
             shutil.copy(os.path.join(src, f), os.path.join(out, f))
     patch = os.path.join(out, "patch.diff")
     meta = {"seed_id": sid, "property": prop, "confirmed": {}, "checks": {}}
